@@ -10,7 +10,7 @@
      viol  (level 2): a C08 property is false on the OBSERVED values:
        UpdateAtomic, OrderIndependent, WellFormed, MatchesRef (map-based reference),
        PrioBounded, NoClip, RotationExact (reference weighted round-robin), Fair,
-       Proportional, CopyExact, LookupExact, PruneKeeps, ChainExact (updateState).      *)
+       CopyExact, LookupExact, PruneKeeps, ChainExact (updateState).      *)
 EXTENDS TMValStore, TMValBig, TraceKit
 
 Trace == LoadTrace("trace.ndjson")
@@ -92,14 +92,12 @@ StepUpdate(e) ==
 RotationViol(pre, n, post, props, each) ==
   \* each = TRUE: n calls with 1 round (props = proposer after every call); FALSE: one call with n rounds
   LET ref == IF each THEN RefEach(pre.vals, n) ELSE [vals |-> RefIncrement(pre.vals, n).vals, props |-> <<RefIncrement(pre.vals, n).prop>>]
-      T   == TotalPower(pre.vals)
   IN   FailIf(post.vals # ref.vals, V("RotationExact", IF Powers(post.vals) # Powers(pre.vals) THEN "members_or_powers_changed" ELSE "priorities"))
   \cup FailIf(each /\ props # ref.props, V("RotationExact", "proposer_sequence"))
   \cup FailIf(post.prop.a # ref.props[Len(ref.props)] \/ ~(\E i \in DOMAIN post.vals : post.vals[i] = post.prop),
               V("RotationExact", "proposer"))
   \cup FailIf(~NoClip(post.vals), V("NoClip", "rotation"))
   \cup FailIf(each /\ fresh /\ Len(props) = n /\ ~FairWindows(pre.vals, props), V("Fair", "window_of_total_rounds"))
-  \cup FailIf(each /\ Len(props) = n /\ ~ProportionalPrefix(pre.vals, props, 3 * T), V("Proportional", "more_than_3_turns_off"))
 
 StepInc(e) ==
   LET pre == cur
@@ -123,6 +121,11 @@ StepRotate(e) ==
      /\ IF bad THEN /\ drift' = drift /\ viol' = viol
         ELSE /\ drift' = drift \cup FailIf(e.err # "none" \/ IncrementEach(pre, e.n) # e.post \/ ProposerSeq(pre, e.n) # e.props,
                                            D("repeated IncrementProposerPriority(1) differs from spec", e.err))
+                              \* not a verdict: the 3-turn bound is empirical (TLC on the model, random search), and
+                              \* RotationExact already pins the observed rotation to the reference
+                              \cup FailIf(e.err = "none" /\ Len(e.props) = e.n
+                                           /\ ~ProportionalPrefix(pre.vals, e.props, 3 * TotalPower(pre.vals)),
+                                         D("note: a validator was more than 3 turns away from its proportional share", "proportional"))
              /\ viol' = viol \cup (IF e.err = "none" THEN RotationViol(pre, e.n, e.post, e.props, TRUE)
                                    ELSE {V("RotationExact", "panic")})
      /\ UnchangedStore /\ UnchangedX
